@@ -69,7 +69,7 @@ Definition stop {A} : G A := ([], Stop).
 Definition require (b : bool) : G unit := if b then ret tt else stop.
 Definition bind {A B} (g : G A) (f : A -> G B) : G B :=
   match snd g with
-  | Done a => (fst g ++ fst (f a), snd (f a))
+  | Done a => let r := f a in (fst g ++ fst r, snd r)
   | Stop => (fst g, Stop)
   | Fuel => (fst g, Fuel)
   end.
